@@ -1,6 +1,7 @@
 from __future__ import annotations
 
 import logging
+import sys
 from abc import ABCMeta, abstractmethod
 from collections.abc import (
     Awaitable,
@@ -300,11 +301,16 @@ class ComponentContext(Context):
                 self._format_resource_description(type, name),
             )
 
-            # Wait until a matching resource or resource factory is available
-            await self._context.resource_added.wait_event(
+            # Wait until a matching resource or resource factory is available. The
+            # queue must not be bounded: events of other resources published in the
+            # meantime would fill it up and the matching event would be dropped.
+            async with self._context.resource_added.stream_events(
                 lambda event: event.resource_name == name
                 and type in event.resource_types,
-            )
+                max_queue_size=sys.maxsize,
+            ) as stream:
+                await stream.__anext__()
+
             res = await self._context.get_resource(type, name)
             logger.debug(
                 "%s got the resource it was waiting for (%s)",
